@@ -436,6 +436,28 @@ func checkResultRecordConsistent(p *Prog, r *Roles, res *Result, rule string) {
 				continue
 			}
 			ck, cv, cr := class(args[0], 0, 0), class(args[1], 2, 0), class(args[2], 1, 0)
+			// the record is kept in one struct variable: three different fields of the same variable
+			fieldOfVar := func(v ssa.Value) (ssa.Value, *types.Var) {
+				switch x := strip(v).(type) {
+				case *ssa.UnOp:
+					if fa, ok := x.X.(*ssa.FieldAddr); ok && x.Op == token.MUL {
+						return strip(fa.X), fieldOf(fa)
+					}
+				case *ssa.Field:
+					return resolve(x.X), fieldOfField(x)
+				}
+				return nil, nil
+			}
+			if b0, f0 := fieldOfVar(args[0]); b0 != nil {
+				b1, f1 := fieldOfVar(args[1])
+				b2, f2 := fieldOfVar(args[2])
+				if b1 == b0 && b2 == b0 && f0 != f1 && f1 != f2 && f0 != f2 {
+					k++
+					n++
+					res.ok(rule, fmt.Sprintf("%s: result record #%d is one stored record", funcName(f), k), p.pos(c.Pos()), "three fields of one record variable")
+					continue
+				}
+			}
 			if ck == 0 && cv == 0 && cr == 0 {
 				continue // a forwarding receiver (merge), not the scan loop
 			}
